@@ -23,8 +23,5 @@ Definition gen_step (t : tree) (o : op) : res (tree * ret) :=
   | OSetCtx n c => set_node_context t n c                       (* hand model *)
   end.
 
-Definition translated_op (o : op) : bool :=
-  match o with ONewLeafCtx _ | OClear | OSetCtx _ _ => false | _ => true end.
-
 Definition gen_run (t : tree) (os : list op) : res (tree * list ret) :=
   fold_left (fun acc o => x <- acc ;; y <- gen_step (fst x) o ;; Ok (fst y, snd x ++ [snd y])) os (Ok (t, [])).
